@@ -450,10 +450,10 @@ for e, props in (('b_rt_times', ['C01', 'C03', 'C04', 'C05', 'C06', 'C08', 'C14'
 UNITS['c09'] = {
     'opaque': [' get_lock$'],
     'dyn_types': [r'^sequence_handler<[012]>$', r'^call_matcher<.*>$', r'^return_handler_t<.*\(lambdaat.*\)>$', r'^condition<.*\(lambdaat.*\)>$', r'^side_effect<.*\(lambdaat.*\)>$'],
-    'roots': {'C09_ALIAS': '^_ZN14vp_trompeloeil12vp_c09_aliasE', 'C09_LR': '^_ZN14vp_trompeloeil16vp_c09_lr_returnE', 'C09_POS': '^_ZN14vp_trompeloeil16vp_c09_positionsE', 'OBS': 'rec:^vp_vp_obs$'},
+    'roots': {'C09_ALIAS': '^_ZN14vp_trompeloeil12vp_c09_aliasE', 'C09_LR': '^_ZN14vp_trompeloeil16vp_c09_lr_returnE', 'C09_POS': '^_ZN14vp_trompeloeil16vp_c09_positionsE', 'C09_A15': '^_ZN14vp_trompeloeil14vp_c09_arity15E', 'OBS15': 'rec:^vp_vp_obs15$', 'OBS': 'rec:^vp_vp_obs$'},
 }
-for e in ('c_alias', 'c_lr', 'c_positions'):
-    ob(name='c09.%s' % e[2:], kind='FC+', props=['C09'], unit='c09', harness='h_c09.c', entry=e, unwind=6, timeout=900, object_bits=12,
+for e in ('c_alias', 'c_lr', 'c_positions', 'c_arity15'):
+    ob(name='c09.%s' % e[2:], kind='FC+', props=['C09'], unit='c09', harness='h_c09.c', entry=e, unwind=17 if e == 'c_arity15' else 6, timeout=900, object_bits=12,
        bound='none for the values (symbolic ints); the scenario (one mock function of arity 3 / 1 / 0, the clauses listed in the harness) is fixed by the driver function')
 
 # thorough-only: mock_func with expectations in two sequences (concrete K), larger text shapes
